@@ -1,15 +1,9 @@
 From Coq Require Import ZArith Lia Bool String List.
-From DRF Require Import Base.U64 Base.DivLemmas Base.Dec Base.Civil Model.TimeParts Gen.TimeConvGen Gen.LayoutGen Proofs.TimeConvProofs.
+From DRF Require Import Base.U64 Base.DivLemmas Base.Dec Base.Civil Model.TimeParts Gen.TimeConvGen Gen.LayoutGen Proofs.TimeConvProofs Model.LayoutSpec.
 Import ListNotations.
 Local Open Scope Z_scope.
 
 (* C04: exactness of the regenerated digital_rf_get_subdir_file and the layout corollaries *)
-(* Spec *)
-Definition ms_of (K n d : Z) : Z := K * d * 1000 / n.
-Definition F_of (K n d fc : Z) : Z := fc * (ms_of K n d / fc).
-Definition S_of (K n d sc : Z) : Z := sc * ((K * d / n) / sc).
-Definition file_start (f n d : Z) : Z := cdiv (f * n) (1000 * d).
-
 Lemma ms_split K n d : 0 <= K -> 0 < n -> 0 < d ->
   floor_sec K n d * 1000 + floor_ps K n d / 1000000000 = ms_of K n d.
 Proof.
